@@ -162,4 +162,23 @@ struct Plain { 1: i32 v }
 `,
 		},
 	},
+	{
+		// an extends chain of three services across two includes: GetAllMethods in order
+		name: "extends-chain",
+		main: "top.thrift",
+		files: map[string]string{
+			"top.thrift": `include "mid.thrift"
+namespace go c15.corpus.chain.top
+service Top extends mid.Mid { void t1() void t2() }
+service Local extends Top { void l1() }
+`,
+			"mid.thrift": `include "base/root.thrift"
+namespace go c15.corpus.chain.mid
+service Mid extends root.Root { void m1() }
+`,
+			"base/root.thrift": `namespace go c15.corpus.chain.root
+service Root { void r1() oneway void r2() }
+`,
+		},
+	},
 }
